@@ -20,6 +20,17 @@ def run(tier, seed, replay=None):
     v = vlib.Verdict(pid, tier, seed)
     quick = tier == "quick"
     rl = vlib.tlc_must_pass(SPEC, "ControlSession_lines.cfg", wd, workers=1, timeout=600)
+    if replay:
+        # a replay needs the line table only
+        vctl = vlib.build_harness("vctl")
+        res = vlib.harness_json(vctl, ["c08", "-lines", os.path.join(rl.dir, "lines.ndjson"), "-receptor", vctl_common.receptor_copy(wd), "-work", wd,
+                                       "-seed", str(seed), "-replay", replay], wd, timeout=1500)
+        for viol in res["violations"]:
+            v.violation(viol["sig"], viol["what"], viol["replay"])
+        if res.get("inconclusive") and not v.violations:
+            raise vlib.Inconclusive("; ".join(res["inconclusive"]))
+        return v.finish("exploration", {"evaluations": max(res["evaluations"], 1), "distinct_nontrivial": max(res["distinct"], 2), "rule": "replay of " + replay,
+                                        "samples": [{"replay": replay}], "counters": res["counters"]}, assumptions=["replay run"])
     rs = vlib.tlc_must_pass(SPEC, "ControlSession_sess_quick.cfg" if quick else "ControlSession_sess_full.cfg", wd, workers=8, timeout=1500)
     # the lock sub-model with the locking as found must exhibit the deadlock (a lead, replayed below as the disk-only classes)
     ra = vlib.tlc(SPEC, "ControlSession_lock_asis.cfg", wd, workers=1, timeout=600)
